@@ -258,6 +258,12 @@ MgmtFailed(props, cfg, S, e) ==
   [] e.op = "info" ->
          Chk(props, "C15", "C15.InfoPure", Frame(cfg, S, e, i, {}) /\ e.info = S.info /\ noeval)
     \cup Chk(props, "C15", "C15.Size", e.info[i][5] = Size(mem2))
+  \* the decorator OBJECT of instance i also decorates a sibling function (same signature, same values), and that sibling
+  \* is called: the two wrappers share the cache by construction, so memory and archive may change - but the statistics
+  \* that f.info() reports are an account of the calls made to f
+  [] e.op = "sibcall" ->
+         Chk(props, "C15", "C15.SiblingCallsNotCounted", StatsSame(S, e, i))
+    \cup Chk(props, "C15", "C15.Size", e.info[i][5] = Size(mem2))
   [] e.op = "wrapped" ->
          Chk(props, "C18", "C18.Wrapped", e.exc = "none" /\ e.ret = 1 /\ Frame(cfg, S, e, i, {}) /\ e.info = S.info)
   [] e.op = "arm_fault" ->  \* the harness arms a one-shot write failure in the bound archive: no state change
@@ -324,7 +330,7 @@ GhostAfter(cfg, S, e) ==
                  !.kept  = IF class = "miss" /\ S.cur[i] # 0 THEN g.kept \cup {k} ELSE g.kept ]]
         ELSE IF class = "raise" THEN [S.g EXCEPT ![i] = [g EXCEPT !.raised = TRUE]]
         ELSE S.g
-  ELSE IF e.op \in {"load", "loadk"} THEN
+  ELSE IF e.op \in {"load", "loadk", "sibcall"} THEN   \* (sibcall: entries may enter memory without a use recorded by THIS wrapper)
      [S.g EXCEPT ![i] = [g EXCEPT !.taint = g.taint \/ Dom(e.mem[i]) # Dom(S.mem[i])]]
   ELSE IF e.op = "sync" THEN   \* sync(clear=True) empties the archive first: what was only there has been cleared explicitly
      [S.g EXCEPT ![i] = [g EXCEPT !.taint = g.taint \/ Dom(e.mem[i]) # Dom(S.mem[i]),
